@@ -44,6 +44,19 @@ fn mk_pages(ty: usize, rng: &mut Rng, n: usize) -> Vec<Page<'static>> {
                     let n = p.as_bytes().len();
                     return Page::from_bytes(w, h, vec![0u8; n]).expect("padded length");
                 }
+                // a page that LOOKS LIKE THIS SIGN'S OWN CONFIGURATION where it begins: its first 16 bytes are the type's
+                // block (exactly; or with an ordinary page header in bytes 1..3, which a page made with set_pixel can be:
+                // id = the block's family byte, first columns = the block's size fields), or another type's block
+                4 | 5 => {
+                    let n = p.as_bytes().len();
+                    let block = TYPES[if rng.chance(1, 4) { rng.usize(TYPES.len()) } else { ty }].ty.to_bytes();
+                    let mut b = if rng.bool() { rng.bytes(n) } else { vec![0u8; n] };
+                    b[..16].copy_from_slice(&block[..16]);
+                    if rng.bool() {
+                        b[1..4].copy_from_slice(&p.as_bytes()[1..4]);
+                    }
+                    return Page::from_bytes(w, h, b).expect("padded length");
+                }
                 _ => {}
             }
             match rng.below(4) {
